@@ -540,6 +540,51 @@ def generations(kind, obj, ngen, k0, tag):
     return recs
 
 
+def custom_leaf_stage(rep, rs, tier):
+    """user-defined leaf classes (the loader's `leaves=` option): circuits containing a custom leaf, and circuits of built-in
+    leaves loaded with the option given anyway, through several save / load generations IN ONE PROCESS — every load succeeds
+    and yields the same classes, parameters and log-likelihoods."""
+    from deeprob.spn.structure.leaf import Bernoulli
+    from deeprob.spn.structure.node import Sum, Product, assign_ids
+    from deeprob.spn.structure.io import save_spn_json, load_spn_json
+    from deeprob.spn.algorithms.inference import log_likelihood
+    from . import circuits as G
+    Custom = type("HarnessBernoulli", (Bernoulli,), {})
+    Other = type("HarnessBernoulliB", (Bernoulli,), {})
+    nbad = 0; done = 0
+    for i in range(4 if tier == "quick" else 24):
+        k = int(rs.randint(2, 4))
+        mk = (lambda v: Custom(v, float(rs.randint(1, 16) / 16.0))) if i % 2 == 0 else (lambda v: Bernoulli(v, float(rs.randint(1, 16) / 16.0)))
+        root = Sum(children=[Product(children=[mk(0), Bernoulli(1, float(rs.randint(1, 16) / 16.0)), (Other if i % 4 == 0 else Bernoulli)(2, 0.25)])
+                             for _ in range(k)], weights=G.dyadic_weights(rs, k))
+        assign_ids(root)
+        X = np.array(list(itertools.product([0, 1], repeat=3)) + [[np.nan, 1, 0]], dtype=np.float32)
+        ref = log_likelihood(root, X).reshape(-1)
+        want = [type(o).__name__ for o in G.post_order(root)]
+        cur = root; problem = None
+        try:
+            for gen in range(3):
+                f = io.StringIO(); save_spn_json(cur, f)
+                for again in range(2):                      # the same text is also loaded twice
+                    f.seek(0)
+                    cur = load_spn_json(f, leaves=[Custom, Other])
+                    got = [type(o).__name__ for o in G.post_order(cur)]
+                    ll = log_likelihood(cur, X).reshape(-1)
+                    if got != want or not np.allclose(ll, ref, rtol=1e-5, atol=1e-6):
+                        problem = dict(what="loaded circuit differs (classes or log-likelihoods)", generation=gen + 1, load=again + 1, classes=got, expected=want)
+                        break
+                if problem:
+                    break
+        except Exception as e:
+            problem = dict(what="save / load with custom leaf classes raised", generation=gen + 1, load=again + 1, error=f"{type(e).__name__}: {e}")
+        done += 1
+        if problem:
+            nbad += 1
+            if nbad <= 3:
+                rep.violation(dict(kind="round-trip-with-custom-leaf-classes", circuit=G.Table(root).brief(), option="leaves=[HarnessBernoulli, HarnessBernoulliB]", **problem), True)
+    rep.cov["custom_leaf_round_trips"] = done
+
+
 def nonfinite_stage(rep, rs, tier):
     """Chow-Liu trees with exact-zero table entries (log-parameters -inf: hand-built deterministic tables, or fit(alpha=0) on
     data in which a parent/child configuration never occurs), alone and as a circuit leaf.  The exact-rational model has no
@@ -996,6 +1041,7 @@ def main(tier, seed, replay=None):
                        "root; distinct by JSON text hash; log-likelihood oracle on 24 random rows per object (15% missing cells, "
                        "points away from Uniform ends and Isotonic breaks)")
     nonfinite_stage(rep, rs, tier)
+    custom_leaf_stage(rep, rs, tier)
     C.clean_gen(PID)
     shutil.rmtree(WORK, ignore_errors=True)
     return rep.finish("proof")
